@@ -7,6 +7,7 @@ on the same sample (G-fn homomorphism oracle, DESIGN 1.3); nothing about a leaf
 is computed by the harness itself.
 """
 
+import traceback
 import numpy
 
 ENV_NAMES = ['const', 'plain', 'mixed', 'boundary', 'prod2', 'prod3']
@@ -16,13 +17,15 @@ _cache = {}
 
 
 class Env:
-    """name, npoint_axes, npoints, leaves: name -> (function array, values (P, *shape), meta)"""
+    """name, npoint_axes, npoints, leaves: name -> (function array, values (P, *shape), meta);
+    failures: leaves that could not be built or evaluated alone (reported by the check as violations)"""
 
     def __init__(self, name):
         from nutils import mesh, function
         self.name = name
         self.npoint_axes = POINT_AXES[name]
         self.leaves = {}
+        self.failures = []
         self.sample = None
         L = {}
         if name == 'const':
@@ -31,13 +34,12 @@ class Env:
         if name in ('plain', 'boundary', 'prod2', 'prod3'):
             X, gx = mesh.rectilinear([numpy.linspace(0, 1, 3), numpy.linspace(.5, 2, 2)], space='X')
             if name == 'boundary':
-                bnd = X.boundary
-                self.sample = bnd.sample('gauss', 2)
+                self.sample = X.boundary.sample('gauss', 2)
             else:
                 self.sample = X.sample('gauss', 2)
             self._space_leaves(L, 'X', X, gx, nelems=2)
             if name == 'boundary':
-                L['X.normal'] = (function.normal(gx), dict(kind='f'))
+                L['X.normal'] = (lambda: function.normal(gx), dict(kind='f'))
         if name == 'mixed':
             X, gx = mesh.unitsquare(2, 'mixed')
             self.sample = X.sample('gauss', 2)
@@ -56,35 +58,48 @@ class Env:
             # leaves that contain another sample's points: sample.bind / sample.integral of a function on another space
             Y, gy = mesh.rectilinear([numpy.linspace(1, 2, 3)], space='Y')
             sy = Y.sample('gauss', 1)
-            L['Y.bound_geom'] = (sy.bind(gy[0]), dict(kind='f'))
-            L['Y.integral'] = (sy.integral(gy[0] * function.J(gy)), dict(kind='f'))
+            L['Y.bound_geom'] = (lambda: sy.bind(gy[0]), dict(kind='f'))
+            L['Y.integral'] = (lambda: sy.integral(gy[0] * function.J(gy)), dict(kind='f'))
         self.npoints = self.sample.npoints
         # separate evaluation of every leaf alone
-        for lname, (f, meta) in L.items():
-            v = numpy.asarray(self.sample.eval(f))
-            assert v.shape == (self.npoints,) + tuple(f.shape), (lname, v.shape, f.shape)
-            assert numpy.isfinite(v).all() if v.dtype.kind in 'fc' else True
+        for lname, (build, meta) in L.items():
+            try:
+                f = build()
+                v = numpy.asarray(self.sample.eval(f))
+                if v.shape != (self.npoints,) + tuple(f.shape):
+                    raise ValueError(f'evaluated shape {v.shape} is not (npoints,)+shape = {(self.npoints,) + tuple(f.shape)}')
+                if v.dtype.kind in 'fc' and not numpy.isfinite(v).all():
+                    raise ValueError('non-finite values')
+                if tolerance_kind(v) != meta['kind']:
+                    raise ValueError(f'evaluated dtype {v.dtype} but the leaf is of kind {meta["kind"]}')
+            except Exception as e:
+                # a leaf that cannot be evaluated alone is itself an observation (reported by the check), not a harness failure
+                self.failures.append((lname, f'{type(e).__name__}: {str(e)[:200]} | ' + traceback.format_exc(limit=-2)[-500:]))
+                continue
             self.leaves[lname] = (f, v, meta)
 
     @staticmethod
     def _space_leaves(L, s, topo, geom, nelems, basisdegree=1):
-        L[s + '.geom'] = (geom, dict(kind='f'))
-        basis = topo.basis('std', degree=basisdegree)
-        L[s + '.basis'] = (basis, dict(kind='f'))
-        L[s + '.findex'] = (topo.f_index, dict(kind='i', bounds=(0, nelems - 1), pointindep=True))
-        L[s + '.coords'] = (topo.f_coords, dict(kind='f'))
-        L[s + '.geom0'] = (geom[0], dict(kind='f'))
-        # derived leaves of the remaining element kinds (their values, too, come from evaluating the leaf alone)
         thr = {'X': .45, 'Y': 1.45, 'Z': -.55}[s]
-        L[s + '.bool'] = (numpy.greater(geom[0], thr), dict(kind='b'))
-        L[s + '.cplx'] = (geom[0] + 1j * topo.f_coords[0], dict(kind='c'))
-        L[s + '.ivec'] = (numpy.stack([topo.f_index, 1 - topo.f_index, topo.f_index * 2]), dict(kind='i', pointindep=True))
+        L[s + '.geom'] = (lambda: geom, dict(kind='f'))
+        L[s + '.basis'] = (lambda: topo.basis('std', degree=basisdegree), dict(kind='f'))
+        L[s + '.findex'] = (lambda: topo.f_index, dict(kind='i', bounds=(0, nelems - 1), pointindep=True))
+        L[s + '.coords'] = (lambda: topo.f_coords, dict(kind='f'))
+        L[s + '.geom0'] = (lambda: geom[0], dict(kind='f'))
+        # derived leaves of the remaining element kinds (their values, too, come from evaluating the leaf alone)
+        L[s + '.bool'] = (lambda: numpy.greater(geom[0], thr), dict(kind='b'))
+        L[s + '.cplx'] = (lambda: geom[0] + 1j * topo.f_coords[0], dict(kind='c'))
+        L[s + '.ivec'] = (lambda: numpy.stack([topo.f_index, 1 - topo.f_index, topo.f_index * 2]), dict(kind='i', pointindep=True))
 
     def eval(self, funcs, arguments):
         from nutils import function
         if self.sample is None:
             return [numpy.asarray(v)[numpy.newaxis] for v in function.eval(list(funcs), arguments)]
         return [numpy.asarray(v) for v in self.sample.eval(list(funcs), arguments=arguments)]
+
+
+def tolerance_kind(v):
+    return {'b': 'b', 'i': 'i', 'u': 'i', 'f': 'f', 'c': 'c'}.get(v.dtype.kind, '?')
 
 
 def get(name):
